@@ -16,8 +16,21 @@ package workspace
 //@ trusted (*WorkspaceIndex).refreshDerived
 //@   modifies idx.accounts, idx.payees, idx.commodities, idx.tags, idx.tagValues, idx.dates
 
-//@ trusted filterTransactions
-//@   ensures len(result) <= len(entries)
+// The transaction index: per key, the entries of each member file. cntF counts the entries of one file in a bucket.
+//@ specdef cntF(es []TransactionEntry, i int, q string) int := ite(i <= 0, 0, cntF(es, i - 1, q) + ite(es[i - 1].FilePath == q, 1, 0))
+//@ lemma cntF_nonneg(es []TransactionEntry, i int, q string) induct i := {cntF(es, i, q)} cntF(es, i, q) >= 0 && cntF(es, i, q) <= ite(i <= 0, 0, i)
+// bcnt: the entries of file q in the bucket of key k.
+//@ specdef bcnt(m map[string][]TransactionEntry, k string, q string) int := cntF(m[k], len(m[k]), q)
+//@ lemma cntF_ext(a []TransactionEntry, b []TransactionEntry, n int, q string) induct n := {cntF(a, n, q); cntF(b, n, q)} (forall i int :: {a[i]} {b[i]} 0 <= i && i < n ==> a[i] == b[i]) ==> cntF(a, n, q) == cntF(b, n, q)
+// filterTransactions drops exactly the entries of filePath: for every other file the bucket holds as many entries as before.
+//@ func filterTransactions
+//@   props C12
+//@   ensures [len] len(result) <= len(entries)
+//@   ensures [C12:keeps_others] forall q string :: {cntF(result, len(result), q)} q != filePath ==> cntF(result, len(result), q) == cntF(entries, len(entries), q)
+//@   ensures [C12:drops_file] cntF(result, len(result), filePath) == 0
+//@   loop 1 invariant 0 - 1 <= rangeindex && rangeindex <= len(entries) - 1 && len(filtered) <= rangeindex + 1
+//@   loop 1 invariant forall q string :: {cntF(filtered, len(filtered), q)} {cntF(entries, rangeindex + 1, q)} cntF(filtered, len(filtered), q) == ite(q == filePath, 0, cntF(entries, rangeindex + 1, q))
+//@   loop 1 decreases len(entries) - rangeindex
 
 //@ func (*WorkspaceIndex).decrementTagValueBy
 //@   props C12
@@ -112,6 +125,7 @@ package workspace
 //@   ensures [com] forall k string :: idx.commodityCounts[k] == old(idx.commodityCounts[k]) - fi.CommodityCounts[k]
 //@   ensures [tag] forall k string :: idx.tagCounts[k] == old(idx.tagCounts[k]) - fi.TagCounts[k]
 //@   ensures [date] forall k string :: idx.dateCounts[k] == old(idx.dateCounts[k]) - cnt(fi.Dates, len(fi.Dates), k)
+//@   ensures [C12:other_files_transactions_kept] forall k string, q string :: {bcnt(idx.transactionsByKey, k, q)} q != path ==> bcnt(idx.transactionsByKey, k, q) == old(bcnt(idx.transactionsByKey, k, q))
 //@   ensures [tmpl_removed] forall p string :: has(fi.PayeeTemplates, p) ==> !has(idx.payeeTemplates, p)
 //@   ensures [tmpl_kept] forall p string :: !has(fi.PayeeTemplates, p) ==> (has(idx.payeeTemplates, p) <==> old(has(idx.payeeTemplates, p))) && idx.payeeTemplates[p] == old(idx.payeeTemplates[p])
 //@   ensures [files] !has(idx.fileIndexes, path) && (forall p string :: {idx.fileIndexes[p]} p != path ==> idx.fileIndexes[p] == old(idx.fileIndexes[p]) && (has(idx.fileIndexes, p) <==> old(has(idx.fileIndexes, p))))
@@ -140,6 +154,7 @@ package workspace
 //@   loop 6 invariant forall t string :: {idx.tagValueCounts[t]} idx.tagValueCounts[t] == 0 || idx.tagValueCounts[t] == old(idx.tagValueCounts[t])
 //@   loop 7 modifies idx.transactionsByKey[*]
 //@   loop 7 invariant 0 - 1 <= rangeindex && rangeindex <= len(fi.Transactions) - 1
+//@   loop 7 invariant forall k string, q string :: {bcnt(idx.transactionsByKey, k, q)} {old(bcnt(idx.transactionsByKey, k, q))} q != path ==> bcnt(idx.transactionsByKey, k, q) == old(bcnt(idx.transactionsByKey, k, q))
 //@   loop 7 decreases len(fi.Transactions) - rangeindex
 //@   loop 8 modifies idx.dateCounts[*]
 //@   loop 8 invariant 0 - 1 <= rangeindex && rangeindex <= len(fi.Dates) - 1
